@@ -413,6 +413,11 @@ def analyse(obj_paths, slots, allow_path):
             elif "A" in flags:
                 for off, typ, symidx, addend in rels:
                     src = locate(o, ndx, off)
+                    if typ in PCREL and src["bind"] == "ANON":
+                        # jump-table entry `.long .Lcase - .Ltable`: S + A - P with P = table + 4k, so the
+                        # case label is A - (P - table); the table starts where code refers to (the cut)
+                        cuts = sorted(c for c in o.cuts.get(ndx, ()) if c <= off)
+                        addend -= off - (cuts[-1] if cuts else 0)
                     dst = target_of(o, symidx, addend)
                     if src["name"].startswith("asn_OP_") and src["size"] == slots.get("sizeof"):
                         slot = [k for k, v in slots.items() if k != "sizeof" and v == off - [a for a, b, n in o.ranges[ndx] if n is src][0]]
@@ -609,10 +614,77 @@ def emit_coq(res, path, known_ids=()):
     return dict(nodes=len(nodes), edges=len(edges), entries=len(entries), wsec=len(W), stored=len(stored), escaped=len(escaped), allowed=len(allowed))
 
 
+# ---------------------------------------------------------------------------
+# self-test: the whole pipeline on a file whose accesses are known
+
+SELFTEST_EXPECT = [
+    # (source node, target node, kinds that must be present, kinds that must be absent)
+    ("f_read", "g_read", {"load"}, {"store", "lea"}),
+    ("f_cmp", "g_cmp", {"load"}, {"store", "lea"}),
+    ("f_write", "g_written", {"store"}, set()),
+    ("f_rmw", "g_rmw", {"store"}, set()),
+    ("f_addr", "g_addr", {"lea"}, {"store"}),
+    ("f_dbl", "g_dbl", {"store"}, set()),
+    ("f_calls", "helper", {"call"}, set()),
+    ("f_fnptr", "helper2", {"addr"}, set()),
+    ("g_table", "helper3", {"init"}, set()),
+    ("g_table", "g_addr", {"init"}, set()),
+    ("f_local_static", "counter.0", {"store"}, set()),
+]
+
+
+def selftest(outdir):
+    """returns a list of failures (empty = the translator reads this toolchain's output correctly)"""
+    here = os.path.dirname(os.path.abspath(__file__))
+    os.makedirs(outdir, exist_ok=True)
+    o = os.path.join(outdir, "statics_selftest.o")
+    _run(["gcc"] + CFLAGS + ["-c", os.path.join(here, "statics_selftest.c"), "-o", o])
+    empty = os.path.join(outdir, "empty_allow.json")
+    open(empty, "w").write('{"objects": [], "externals": []}')
+    res = analyse([o], {"sizeof": -1}, empty)
+    byname = {}
+    for n in res["nodes"]:
+        byname.setdefault(n["name"], n)
+    fails = []
+    for src, dst, must, mustnot in SELFTEST_EXPECT:
+        if src not in byname or dst not in byname:
+            fails.append("node missing: %s or %s" % (src, dst))
+            continue
+        kinds = res["edges"].get((byname[src]["id"], byname[dst]["id"]), set())
+        if not must <= kinds or kinds & mustnot:
+            fails.append("%s -> %s: got %s, want %s without %s" % (src, dst, sorted(kinds), sorted(must), sorted(mustnot)))
+    # array written through an index: either a relocated store or lea + indexed store; never a plain load
+    for src, dst in (("f_arr", "g_arr"), ("f_bytes", "g_bytes")):
+        kinds = res["edges"].get((byname[src]["id"], byname[dst]["id"]), set())
+        if not kinds & {"store", "lea"}:
+            fails.append("%s -> %s: got %s, want store or lea" % (src, dst, sorted(kinds)))
+    # sections: const tables are not writable, the others are; thread-local is not shared
+    for name, want in (("g_read", True), ("g_arr", True), ("counter.0", True), ("c_tab", False), ("c_ptrs", False), ("g_tls", False)):
+        if name not in byname or bool(byname[name].get("writable")) != want:
+            fails.append("writable(%s) should be %s" % (name, want))
+    # the switch's jump table must lead back to code that reaches f_read and f_cmp
+    res["entries"] = [byname["f_switch"]]
+    parent = reach_py(res)
+    for name in ("f_cmp", "g_read", "g_cmp"):    # f_read is inlined into the switch arm: its load of g_read is what remains
+        if byname[name]["id"] not in parent:
+            fails.append("%s not reachable from f_switch" % name)
+    jt = [n for n in res["nodes"] if n["bind"] == "ANON" and n["id"] in parent and n["section"] == ".rodata"]
+    for n in jt:     # every jump-table entry must resolve into f_switch itself
+        for (a, b), kinds in res["edges"].items():
+            if a == n["id"] and b != byname["f_switch"]["id"]:
+                fails.append("jump table entry resolves outside f_switch")
+    if not jt:
+        fails.append("no jump table node found for f_switch")
+    if byname["g_written"]["id"] in parent:
+        fails.append("g_written reachable from f_switch")
+    return fails
+
+
 def main(argv):
     repo = argv[1] if len(argv) > 1 else "/repo"
     outdir = argv[2] if len(argv) > 2 else "/var/tmp/statics_out"
     here = os.path.dirname(os.path.abspath(__file__))
+    print("selftest failures:", selftest(os.path.join(outdir, "selftest")))
     objs, slots = build_objects(repo, os.path.join(outdir, "obj"))
     res = analyse(objs, slots, os.path.join(here, "statics_allow.json"))
     bad, parent = offending(res)
